@@ -32,7 +32,7 @@ CHECKS = {
    note=S_NOTE),
  'C12': dict(engine='vsched', cat='model_checking', ref='4 (C12), 2.2',
    technique='stateless model checking of the instrumented real code (list size reduced to 3 so the list->maps migration is reachable) plus vector-clock race detection on every IPv4Filter field',
-   text='Writers owning their ranges (crossing the migration, toggling 0.0.0.0/0) and readers; every interleaving at RWMutex and atomic operations; call/return instants are monitor events so every real-time order is explored; oracle is the statement itself (true required if one range present throughout the call, false required if none present at any time), final agreement with the per-goroutine sequential model on boundary probes, no race, no panic. Scenario G: /32, /31, /16 and /2 ranges on both sides of the list->maps switch.',
+   text='Writers owning their ranges (crossing the migration, toggling 0.0.0.0/0) and readers; every interleaving at RWMutex and atomic operations; call/return instants are monitor events so every real-time order is explored; oracle is the statement itself (true required if one range present throughout the call, false required if none present at any time), final agreement with the per-goroutine sequential model on boundary probes, no race, no panic. Scenario G: /32, /31, /16 and /2 ranges on both sides of the list->maps switch. Scenarios H: the same range added twice and removed once (alone, next to a second writer, re-added while present before the switch).',
    note=S_NOTE + ' netutil is rebuilt with listSize=3 by constant override; if the constant disappears the check reports INFRA-ERROR rather than passing vacuously.'),
  'C19': dict(engine='vsched', cat='model_checking', ref='4 (C19), 2.2',
    technique='stateless model checking of the instrumented real code: call sequences are free choices enumerated together with all writer/consumer interleavings (unbounded)',
@@ -40,7 +40,7 @@ CHECKS = {
    note=S_NOTE),
  'C02': dict(engine='vsched', cat='model_checking', ref='4 (C02), 2.2',
    technique='stateless model checking of the instrumented real logger: all interleavings at pool get/put, outMu and inside the destination Write, differential oracle against the same record logged alone',
-   text='For each of the three handlers, 2-3 goroutines x 1-3 operations (root log, pre-derived child log, derive-then-log, below threshold, 20 KiB record, formatted log); Write begin/end are monitor events (no overlap may ever be observed), the multiset of chunks must equal byte-for-byte the lines produced by each call alone on a fresh handler, per-goroutine order preserved, nothing written below the threshold, no field-level race. Every operation has its own instant (per-thread clocks), so a line carrying another record\'s time is a difference; two further scenarios derive from one shared non-root parent whose rendered attributes leave spare capacity (free choice of its width).',
+   text='For each of the three handlers, 2-3 goroutines x 1-3 operations (root log, pre-derived child log, derive-then-log, below threshold, 20 KiB record, formatted log); Write begin/end are monitor events (no overlap may ever be observed), the multiset of chunks must equal byte-for-byte the lines produced by each call alone on a fresh handler, per-goroutine order preserved, nothing written below the threshold, no field-level race. Every operation has its own instant (per-thread clocks), so a line carrying another record\'s time is a difference; two further scenarios derive from one shared non-root parent whose rendered attributes leave spare capacity (free choice of its width). A destination that refuses one record does so in three ways (EAGAIN, io.ErrShortWrite, a short count without error): still exactly one Write for it.',
    note=S_NOTE),
  'C11': dict(engine='vstate', cat='model_checking', ref='4 (C11), 2.3',
    technique='explicit-state BFS whose transition function is the real Add/Remove call, to a fixpoint with list size 3 and to depth 3-4 around the real switch at 256, against a set-of-prefixes reference model',
@@ -52,7 +52,7 @@ CHECKS = {
    note='Trusted base: the reference router written from the statement (greedy literal > :param > *, empty segments skipped except a final one, root first, exact method > *). Paths without a leading slash: only one-handler-once-no-panic is required (segmentation undefined by the statement). Patterns without a leading slash are not generated.'),
  'C05': dict(engine='vstate+vsched', cat='model_checking', ref='4 (C05), 2.2, 2.3',
    technique='explicit-state BFS over request/registration histories on one real Mux with explicit pool choices, differential oracle against a fresh Mux; plus stateless model checking of 2-3 concurrent requests with race detection',
-   text='All histories to depth 4 (quick) / 6 (thorough) over 9 requests x 3 pool behaviours + late registration of a route with more parameters; in relay, route and no-route handlers the observation vector (route info, every parameter name that exists anywhere, RouteParamAny, initial status, request id read twice) must equal the one on a fresh Mux with the same routes; ids unique within the Mux and constant during the request (no format is assumed). Concurrent part: all interleavings (unbounded for 2 clients x 2 requests) at pool get/put and the id counter, field-level race detection. One request\'s handler writes a status and panics through the relay (nobody below ServeHTTP recovers).',
+   text='All histories to depth 4 (quick) / 6 (thorough) over 9 requests x 3 pool behaviours + late registration of a route with more parameters; in relay, route and no-route handlers the observation vector (route info, every parameter name that exists anywhere, RouteParamAny, initial status, request id read twice) must equal the one on a fresh Mux with the same routes; ids unique within the Mux and constant during the request (no format is assumed). Concurrent part: all interleavings (unbounded for 2 clients x 2 requests) at pool get/put and the id counter, field-level race detection. One request\'s handler writes a status and panics through the relay (nobody below ServeHTTP recovers). Two requests have a handler that issues another request through the same Mux while its own is in flight (forwarding with its own writer; an independent sub-request after setting a status): the inner and the outer request are each compared with the same nesting on a fresh Mux, ids of outer and inner differ.',
    note=S_NOTE + ' The state key contains every pooled Store (names, values up to capacity, status, id length); the id counter is excluded (ids are checked along each path).'),
  'C01': dict(engine='vstate-style enumeration (vlogrun)', cat='model_checking', ref='4 (C01), 2.3, 2.4',
    technique='bounded exhaustive enumeration of inputs (all 1-/2-byte strings, all Unicode scalars) and of With/WithGroup chain x call-site attribute trees within a node budget, every record run through the real Logger+JsonHandler and judged by an independent ordered JSON reader and reference builder',
@@ -64,7 +64,7 @@ CHECKS = {
    note=LOG_NOTE),
  'C03': dict(engine='vstate+vsched', cat='model_checking', ref='4 (C03), 2.2, 2.3',
    technique='explicit-state BFS over derivation trees of the real handlers with a differential oracle (isolated replay of each logger\'s own chain; call-site equivalence), plus stateless model checking of two concurrent derivers with race detection',
-   text='For each handler: all derivation trees of <=5 (thorough 6) loggers over 6 derivation kinds; after every derivation every existing logger is probed and must write byte-for-byte what a logger built alone from a fresh root by replaying its own chain writes, and structurally what a root logger given the With attributes at the call site writes. The aliasing precondition (parent with spare buffer capacity and >=2 children) is counted where the handler layout allows. Concurrent part: two goroutines deriving from a shared non-root parent and logging through child, parent and grandchild, all interleavings to the bound. Further passes: an empty group given to With must not appear (as at the call site); With(n attributes) for n = 20..1600 with a sibling derived afterwards, everybody compared with the same logger built alone (rendered sizes through every buffer growth step).',
+   text='For each handler: all derivation trees of <=5 (thorough 6) loggers over 6 derivation kinds; after every derivation every existing logger is probed and must write byte-for-byte what a logger built alone from a fresh root by replaying its own chain writes, and structurally what a root logger given the With attributes at the call site writes. The aliasing precondition (parent with spare buffer capacity and >=2 children) is counted where the handler layout allows. Concurrent part: two goroutines deriving from a shared non-root parent and logging through child, parent and grandchild, all interleavings to the bound. Further passes: an empty group given to With must not appear (as at the call site); With(n attributes) for n = 20..1600 with a sibling derived afterwards, everybody compared with the same logger built alone (rendered sizes through every buffer growth step). Use during use: while a group attribute of one logger is rendered (log call or With), a LogValuer member logs through and derives from another logger of the tree (root, sibling, the logger itself, its child); the multiset of lines must equal that of the same operations done one after the other (180 cases).',
    note=S_NOTE),
  'C15': dict(engine='vsched + enumeration', cat='model_checking', ref='4 (C15), 2.2',
    technique='exhaustive enumeration of handler behaviours through the real Mux+Relay judged per log format, plus stateless model checking of 2-3 requests in flight',
@@ -79,12 +79,12 @@ CHECKS = {
    text='Every URL path of length <= 9 (thorough 11) over {/ . a \\\\} and of length <= 7 over {/ . % 2 e f} x 12 bases (about 4.8 M pairs quick): the result must be the cleaned base or lexically beneath it, and for paths without dot segments equal the plain join (percent-escapes stay literal). Plus long paths of one repeated unit (every count up to 130) followed by each short climbing tail.',
    note='Trusted base: the segment-wise containment oracle; lexical only (no symlinks on disk).'),
  'C10': dict(engine='enumeration', cat='exploration', ref='4 (C10), 2.4',
-   technique='exhaustive enumeration of all argument vectors up to length 4 (quick) / 5 (thorough) over 31 tokens against a reference parser of the documented grammar',
-   text='All argument vectors of length <= 4 (quick, about 0.95 M) / <= 5 (thorough, about 29 M) over 31 tokens against a struct with bool, int, string, duration, uint64, a long-named int and a nested int64 flag: error exactly when the grammar says so, never a panic, otherwise identical field values, Args() and ShowUsage().',
-   note='Trusted base: the reference parser (checks/c10/main.go, written from the documented grammar). Only the command line speaks (no CFG_* variables, no -config).'),
+   technique='exhaustive enumeration of all argument vectors up to length 4 (quick) / 5 (thorough) over 35 tokens, each in three worlds (only the command line speaks / CFG_CONFIG_B64 / the environment give every field another value), against a reference parser of the documented grammar',
+   text='All argument vectors of length <= 4 (quick, about 4.6 M judgements) / <= 5 (thorough) over 35 tokens (incl. values whose text equals the tag default), each judged three times - nothing else speaks, a CFG_CONFIG_B64 document gives every field another value, the environment does (an assignment is observable only against what the field would hold without it) - against a struct with bool, int, string, duration, uint64, a long-named int and a nested int64 flag: error exactly when the grammar says so, never a panic, otherwise identical field values, Args() and ShowUsage().',
+   note='Trusted base: the reference parser (checks/c10/main.go, written from the documented grammar). -config <file> is not in the alphabet (C09 covers it).'),
  'C09': dict(engine='enumeration', cat='exploration', ref='4 (C09), 2.4',
    technique='exhaustive enumeration of generated configurations (reflect.StructOf) over field kind x nesting x tag syntax x all 16 source subsets x value sets x JSON carrier x cli spelling x second-field subsets',
-   text='About 123 000 (quick) / 246 000 (thorough) Parse calls over 9 kinds x 4 nesting positions (incl. acronym names DB.URL -> CFG_DB_URL) x 2 tag syntaxes x 16 source subsets x 3 value sets x 3 JSON carrier modes (file, CFG_CONFIG_B64, both: the file wins) x 3 cli spellings x the second field\'s subsets, each with its own environment and config file; the field must equal the strconv-parsed value of the highest-priority source mentioning it, the second field its own, and trailing args are preserved. Plus built-in flag tokens (-help, --help=true, -help=false) in front of the arguments, and structs of 3..300 int fields with every field given by its own combination of sources.',
+   text='About 123 000 (quick) / 246 000 (thorough) Parse calls over 9 kinds x 4 nesting positions (incl. acronym names DB.URL -> CFG_DB_URL) x 2 tag syntaxes x 16 source subsets x 6 value sets (ordinary, extreme, empty text, cli/env repeating the tag default\'s text, cli/env spelling the zero value, JSON holding the zero value under a non-zero default) x 3 JSON carrier modes (file, CFG_CONFIG_B64, both: the file wins) x 3 cli spellings x the second field\'s subsets, each with its own environment and config file; the field must equal the strconv-parsed value of the highest-priority source mentioning it, the second field its own, and trailing args are preserved. Plus built-in flag tokens (-help, --help=true, -help=false) in front of the arguments, and structs of 3..300 int fields with every field given by its own combination of sources.',
    note='Trusted base: strconv / time.ParseDuration / base64 as value parsers; literal environment names in the harness.'),
  'C18': dict(engine='fault enumeration (vos seam)', cat='fault_enumeration', ref='4 (C18), 2.1',
    technique='exhaustive enumeration of fault positions: every numbered file-system call of each scenario fails in turn (plus calls revealed by a fault, and every pair in thorough), on a real temporary directory and a second real file system',
@@ -92,7 +92,7 @@ CHECKS = {
    note='Trusted base: the vos seam (engine/shim/vos) mounted over os/io calls of util/osutil by the instrumenter; real file systems.'),
  'C20': dict(engine='spin + real-process replay', cat='model_checking', ref='4 (C20), 2.5',
    technique='Promela model of caller/launcher/daemon checked exhaustively by spin (no partial-order reduction), parameterised by whether the SIGINT handler of the launcher is in place before cmd.Start (measured on the real processes, cross-checked against the source); every reachable schedule class is obtained by reachability queries with replayed witness trails and then replayed on real processes through the verif pause points',
-   text='Model: all interleavings of 1 and 2 concurrent Launch calls (52 / 6509 states on the current tree), invariants: Launch ok => Done() happened, marker present, daemon alive, launcher gone; Done() happened and daemon alive => Launch ok. Classes = when Done() landed relative to the two pause points of the launcher; each class and the free race, for one and two concurrent launches (10 plans, 15 launches), is forced on real processes built with -tags verif: Launch must return the daemon pid only after Done(), the marker must exist, the daemon must stay alive and be orphaned, the launcher must be gone, the real processes decide; an outcome the model does not have for a class is recorded as a conformance warning in the evidence. One more class: the daemon is held before Done() while every timer armed by the daemon package fires at once (scaled real timers mounted by overlay): Launch must still not return.',
+   text='Model: all interleavings of 1 and 2 concurrent Launch calls (52 / 6509 states on the current tree), invariants: Launch ok => Done() happened, marker present, daemon alive, launcher gone; Done() happened and daemon alive => Launch ok. Classes = when Done() landed relative to the two pause points of the launcher; each class and the free race, for one and two concurrent launches (10 plans, 15 launches), is forced on real processes built with -tags verif: Launch must return the daemon pid only after Done(), the marker must exist, the daemon must stay alive and be orphaned, the launcher must be gone, the real processes decide; an outcome the model does not have for a class is recorded as a conformance warning in the evidence. One more class: the daemon is held before Done() while every timer armed by the daemon package fires at once (scaled real timers mounted by overlay): Launch must still not return. Further plans on real processes: two overlapping Launch calls in one process, a failing Launch followed by a healthy one, 16 simultaneous Launch calls for 16 daemon names released by a barrier in one process (each must return the pid of the process running its own handler).',
    note='Trusted base: spin 6.5, the Promela model (models/c20_daemon.pml), the two pause points (hook commit, build tag verif), the OS. Inside a class the kernel schedules freely; no timeout is used as an oracle (a step exceeding 30 s is INFRA-ERROR).'),
 }
 
